@@ -197,6 +197,16 @@ impl Corpus {
         }
         s.len()
     }
+    /// average number of occurrences of a value of the field (0 without values)
+    pub fn repetition(&self, f: Fd) -> f64 {
+        let total: usize = self.docs.iter().map(|d| d.get(f).len()).sum();
+        let distinct = self.distinct(f);
+        if distinct == 0 {
+            0.0
+        } else {
+            total as f64 / distinct as f64
+        }
+    }
     pub fn max_multiplicity(&self, f: Fd) -> usize {
         self.docs.iter().map(|d| d.get(f).len()).max().unwrap_or(0)
     }
@@ -231,11 +241,30 @@ const WORDS: [&str; 40] = [
     "five", "six", "seven", "eight", "nine", "ten", "red", "green", "blue", "black",
 ];
 
-pub fn gen_corpus(rng: &mut Rng, big_ok: bool) -> Corpus {
+/// a corpus size just beyond a multiple of the sub-aggregation flush threshold (2048 documents):
+/// a one-segment index then feeds its sub aggregations by a full flush followed by a short one
+fn flush_boundary_size(rng: &mut Rng) -> usize {
+    let over = match rng.below(7) {
+        0 | 1 => 1,
+        2 => 2,
+        3 => 3,
+        4 => rng.urange(4, 8),
+        _ => rng.urange(1, 48),
+    };
+    *rng.pick(&[2048usize, 2048, 2048, 4096]) + over
+}
+
+pub fn gen_corpus(rng: &mut Rng, big_ok: bool, force_big: bool) -> Corpus {
     let small = [0usize, 1, 2, 3, 5, 8, 13, 17, 30, 40, 64, 65, 100, 129, 200, 300, 513];
     let big = [2047usize, 2048, 2049, 2500, 4100, 6000];
-    let n = if big_ok && rng.chance(1, 9) {
-        *rng.pick(&big)
+    let n = if force_big {
+        flush_boundary_size(rng)
+    } else if big_ok && rng.chance(1, 9) {
+        if rng.chance(1, 3) {
+            flush_boundary_size(rng)
+        } else {
+            *rng.pick(&big)
+        }
     } else if rng.chance(1, 5) {
         rng.urange(0, 400)
     } else {
@@ -258,7 +287,7 @@ pub fn gen_corpus(rng: &mut Rng, big_ok: bool) -> Corpus {
     let f_step = *rng.pick(&[0.25f64, 0.5, 1.0, 2.5, 10.0]);
     let f_jit = rng.chance(1, 3);
     let i_style = rng.weighted(&[35, 25, 15, 15, 8]);
-    let u_style = rng.weighted(&[35, 25, 25, 7, 6]);
+    let u_style = rng.weighted(&[35, 25, 25, 7, 6, 8]);
     let d_base: i64 = *rng.pick(&[1_546_300_800_000i64, 0, 1_420_070_400_000]);
     let d_unit: i64 = *rng.pick(&[1i64, 1000, 60_000, 3_600_000, 86_400_000]);
     let d_span: i64 = *rng.pick(&[3i64, 20, 50]);
@@ -354,7 +383,9 @@ pub fn gen_corpus(rng: &mut Rng, big_ok: bool) -> Corpus {
                 1 => rng.range(0, 60) * 5,
                 2 => rng.range(0, 1_000_000),
                 3 => (1u64 << 63) - 3 + rng.range(0, 6),
-                _ => u64::MAX - rng.range(0, 4),
+                4 => u64::MAX - rng.range(0, 4),
+                // identifiers: many distinct values above the dense-storage bound of terms
+                _ => 10_000_000 + rng.range(0, 400),
             };
             v[Fd::Fu.idx()].push(V::U(u));
         }
